@@ -121,7 +121,9 @@ ACCEPTED_GUARDS = {
     '(node, w2) in self[NodesWorlds][branch]': 'redundancy: this (node, world) instance was already applied',
     'branch.has(add)': 'redundancy: the node to add is already on the branch',
     'self[WorldIndex].has(branch, pair)': 'redundancy: the access pair is already on the branch',
-    'not self._should_apply(branch)': 'serial heuristic (termination) -- saturation is declined, see DESIGN C02',
+    'not self._should_apply(branch)': 'serial rule: world limit (termination); what must still be offered is checked by helpersfold.fold_serial_rule',
+    'not branch.has({Node.Key.world: w})': 'serial rule: a world without sentence nodes needs no successor (termination); fold_serial_rule '
+                                           'checks that every unserial world carrying sentences is offered',
 }
 
 
